@@ -91,7 +91,8 @@ pub struct TreeSpec {
 pub const RESERVED_ROOT: [&str; 10] = ["style.css", "script.js", "favicon.svg", "form-get-method", "form-url-encoded-enctype-post-method", "form-multipart-enctype-post-method", "file-upload", "index.html", "404.html", "rws.config.toml"];
 
 pub fn size_strategy(thorough: bool) -> impl Strategy<Value = u32> {
-    let big: Vec<u32> = if thorough { vec![65535, 65536, 65537, 1048575, 1048576, 1048577] } else { vec![65535, 65536, 65537] };
+    // files of a megabyte and more also in the quick tier (a few per run): read / write loops that only misbehave beyond the first megabyte
+    let big: Vec<u32> = if thorough { vec![65535, 65536, 65537, 1048575, 1048576, 1048577, 2_500_000] } else { vec![65535, 65536, 65537, 65536, 65537, 65535, 1048577, 2_500_000] };
     prop_oneof![
         3 => prop::sample::select(vec![0u32, 1, 2, 3]),
         6 => 4u32..600,
